@@ -164,6 +164,22 @@ func genDesc(r *core.Rand) *elfref.Desc {
 				bs = append(bs, byte(pi.Word), byte(pi.Word>>8), byte(pi.Word>>16), byte(pi.Word>>24))
 			}
 		}
+		if odd(8) {
+			// a section that is not a whole number of instruction words: one
+			// to three bytes of zeros, ones or anything behind the last word
+			tail := r.Bytes(r.Range(1, 3))
+			switch r.Intn(3) {
+			case 0:
+				for k := range tail {
+					tail[k] = 0
+				}
+			case 1:
+				for k := range tail {
+					tail[k] = 0xff
+				}
+			}
+			bs = append(bs, tail...)
+		}
 		flags := uint64(elfref.SHFAlloc | elfref.SHFExec)
 		s := elfref.Sec{Name: ".text", Type: elfref.SHTProgbits, Flags: flags, Addr: addr, Off: off, Size: uint64(len(bs))}
 		if i > 0 {
@@ -174,6 +190,10 @@ func genDesc(r *core.Rand) *elfref.Desc {
 		code = append(code, region{off, addr, uint64(len(bs))})
 		off += uint64(len(bs))
 		addr += uint64(len(bs))
+		if pad := uint64(len(bs) % 4); pad != 0 {
+			off += 4 - pad
+			addr += 4 - pad
+		}
 		if !odd(3) { // otherwise the next section abuts exactly
 			g := uint64(r.Range(1, 16)) * 4
 			off += g
@@ -199,7 +219,7 @@ func genDesc(r *core.Rand) *elfref.Desc {
 		d.Secs = append(d.Secs, elfref.Sec{Name: ".comment", Type: elfref.SHTProgbits, Off: off, Size: n})
 		off += n
 	}
-	if odd(5) { // empty executable section
+	if odd(5) || (nCode == 0 && odd(2)) { // empty executable section (possibly the only executable one)
 		d.Secs = append(d.Secs, elfref.Sec{Name: ".empty", Type: elfref.SHTProgbits, Flags: elfref.SHFAlloc | elfref.SHFExec, Addr: addr + 0x1000, Off: off, Size: 0})
 	}
 	if odd(6) { // executable PROGBITS at address zero (must not become code)
@@ -288,6 +308,10 @@ func genDesc(r *core.Rand) *elfref.Desc {
 			i, j := r.Intn(len(d.Progs)), r.Intn(len(d.Progs))
 			d.Progs[i], d.Progs[j] = d.Progs[j], d.Progs[i]
 		}
+	}
+	if len(code) == 0 && dataSize > 0 && !odd(4) {
+		// no code at all, but something loadable
+		d.Progs = append(d.Progs, elfref.Prog{Type: elfref.PTLoad, Flags: 6, Off: dataOff, Vaddr: dataAddr, Filesz: dataSize, Memsz: dataSize + bss})
 	}
 	if r.Bool() {
 		d.Phoff = 64
